@@ -45,6 +45,10 @@ ASSUMPTIONS = [
     "operations may be built elsewhere with their patches and moved into place by translate / rotate / mirror (also on "
     "a copy); a patch stays on the image of the face it was put on (Operation.mirror swaps bottom and top face, so the "
     "image's corner (j+4)%8 is the source's corner j); positions then agree to rounding (<= 1e-8 at 4e6 from the origin)",
+    "an operation may be source.copy() with its points moved to another cell (Face.update): it starts with the patches "
+    "the source carried when the copy was taken, later set_patch calls concern only the operation they are made on; or "
+    "cb.Extrude(source.get_face(side), width) on a regular lattice: it carries only the patches set on itself (its "
+    "corner numbering is read off operation.point_array)",
     "a patch name is never master in one pair and slave in another; in the first run every pair is declared before "
     "assemble(); the second run follows a drawn history (pairs / operations declared after a first assemble(), then "
     "clear()+assemble() or backport(); or a patch_list.is_slave() query before the pairs) and must give the partition "
@@ -76,11 +80,18 @@ def _internal_faces(dims, cells) -> List[Tuple[int, int, int]]:
 _DIRS = [[1.0, 0.0, 0.0], [0.0, 1.0, 0.0], [0.0, 0.0, 1.0], [0.6, 0.8, 0.0], [0.0, -0.6, 0.8], [0.48, 0.6, -0.64]]
 
 
-def _pre(draw, k: int) -> List[Dict[str, Any]]:
-    """How each operation is brought into place: built there directly, or built elsewhere WITH its patches and then
-    moved there by translate / rotate / mirror (one half of a model built with all patches, the other half obtained by
-    op.copy().mirror(...)).  `origin` is relative to the assembly's offset."""
-    out = []
+def _pre(draw, case, mode: str) -> List[Dict[str, Any]]:
+    """How each operation comes into being:
+      none / translate / rotate / mirror : built in place, or built elsewhere WITH its patches and then moved there (one
+          half of a model built with all patches, the other half obtained by op.copy().mirror(...)); `origin` is
+          relative to the assembly's offset;
+      copy-of : source.copy() taken after the first `at` set_patch statements of the source, its eight points then
+          moved to the target cell (Face.update); what is declared on either of them afterwards concerns only that one;
+      chain   : cb.Extrude(source.get_face(side towards the target cell), width) taken after the first `at` set_patch
+          statements of the face-adjacent source (regular lattices only)."""
+    cells, dims = case["cells"], case["dims"]
+    k = len(cells)
+    out: List[Dict[str, Any]] = []
     for _ in range(k):
         kind = draw(st.sampled_from(["none", "none", "none", "translate", "rotate", "mirror", "mirror"]))
         pre: Dict[str, Any] = {"kind": kind}
@@ -93,6 +104,24 @@ def _pre(draw, k: int) -> List[Dict[str, Any]]:
             if kind == "rotate":
                 pre["angle"] = draw(st.floats(-3.0, 3.0))
         out.append(pre)
+    nstm = [sum(1 for p in case["patches"] if p[0] == oi) for oi in range(k)]
+    regular = not case.get("jitter") and mode != "tolerance"
+    sources: set = set()
+    for _ in range(draw(st.integers(0, 3))):
+        oi = draw(st.integers(0, k - 1))
+        if oi in sources or out[oi]["kind"] in ("copy-of", "chain"):
+            continue
+        kind = draw(st.sampled_from(["copy-of", "chain", "chain"])) if regular else "copy-of"
+        cand = [j for j in range(k) if j != oi and out[j]["kind"] == "none"]
+        if kind == "chain":
+            near = {a if b == cells[oi] else b for a, b, _ in _internal_faces(dims, cells) if cells[oi] in (a, b)}
+            cand = [j for j in cand if cells[j] in near]
+        if not cand:
+            continue
+        j = draw(st.sampled_from(cand))
+        at = nstm[j] if kind == "chain" and draw(st.booleans()) else draw(st.integers(0, nstm[j]))
+        out[oi] = {"kind": kind, "src": j, "at": at}
+        sources.add(j)
     return out
 
 
@@ -160,13 +189,15 @@ def edge_case(draw):
     _far_away(draw, case, "edge")
     case.update(pairs=pairs, patches=patches, merge_first=draw(st.booleans()),
                 order2=list(draw(st.permutations(list(range(k))))), jit=[], miss=[], mode="edge",
-                history=_history(draw, k, len(pairs)), pre=_pre(draw, k))
+                history=_history(draw, k, len(pairs)))
+    case["pre"] = _pre(draw, case, "edge")
     return case
 
 
 @st.composite
 def c05_case(draw, mode: str):
     case = draw(lt.lattice(min_cells=2, max_cells=8, jitter="maybe"))
+    case = {key: case[key] for key in ("dims", "widths", "jitter", "cells", "orient")}  # geometry only
     cells = case["cells"]
     k = len(cells)
     names = list(draw(st.lists(st.sampled_from(POOL), min_size=4, max_size=4, unique=True)))
@@ -208,8 +239,8 @@ def c05_case(draw, mode: str):
         miss=[],
         mode=mode,
         history=_history(draw, k, len(pairs)),
-        pre=_pre(draw, k),
     )
+    case["pre"] = _pre(draw, case, mode)
     if mode == "tolerance":
         dims = case["dims"]
         users: Dict[int, List[List[int]]] = {}
@@ -239,22 +270,34 @@ def c05_case(draw, mode: str):
 
 
 class Ref:
-    """per (operation, local corner): position class, patches touching it"""
+    """per (operation, local corner): position class, patches touching it.
+    perms[oi][i] = canonical corner of the lattice cell at which local corner i of operation oi sits."""
 
-    def __init__(self, case):
+    def __init__(self, case, perms: List[Tuple[int, ...]]):
         dims = case["dims"]
         self.k = len(case["cells"])
-        self.final: Dict[Tuple[int, int], str] = {}
+        pres = case.get("pre") or [{"kind": "none"}] * self.k
+        own: Dict[int, List[Tuple[int, str]]] = {oi: [] for oi in range(self.k)}
         for oi, g, name in case["patches"]:
-            self.final[(oi, g)] = name  # set_patch overwrites
+            own[oi].append((g, name))
+        self.final: Dict[Tuple[int, int], str] = {}
+        for oi in range(self.k):
+            seq: List[Tuple[int, str]] = []
+            if pres[oi]["kind"] == "copy-of":
+                # a copy starts with what its source carried when it was taken, on the same sides of its own numbering
+                src = pres[oi]["src"]
+                for g, name in own[src][: pres[oi]["at"]]:
+                    seq.append((xs.global_side_of_perm(perms[oi], xs.side_name_of_perm(perms[src], g)), name))
+            for g, name in seq + own[oi]:
+                self.final[(oi, g)] = name  # set_patch overwrites
         self.masters = {m for m, _ in case["pairs"]}
         self.slaves = {s for _, s in case["pairs"]}
         off = {(oi, i): mi for mi, m in enumerate(case["miss"]) for oi, i in m["off"]}
         self.pclass: Dict[Tuple[int, int], Tuple[int, int]] = {}
         self.patches: Dict[Tuple[int, int], frozenset] = {}
-        for oi, (c, rot) in enumerate(zip(case["cells"], case["orient"])):
+        for oi, c in enumerate(case["cells"]):
             nodes = lt.cell_nodes(dims, c)
-            perm = lt.ROT[rot]
+            perm = perms[oi]
             for i in range(8):
                 q = perm[i]
                 self.pclass[(oi, i)] = (nodes[q], 1 if (oi, i) in off else 0)
@@ -293,52 +336,129 @@ def corner_positions(case) -> Dict[Tuple[int, int], np.ndarray]:
     return out
 
 
+def _placed(case, oi: int, target: np.ndarray, chop: bool):
+    """operation oi built in place or built elsewhere with its patches and moved so that corner i lies on target[i]"""
+    pre = (case.get("pre") or [{"kind": "none"}] * len(case["orient"]))[oi]
+    off = np.asarray(case.get("offset") or [0.0, 0.0, 0.0])
+    if pre["kind"] == "translate":
+        pts = target - np.asarray(pre["d"])
+    elif pre["kind"] == "rotate":
+        o = off + np.asarray(pre["origin"])
+        pts = (target - o) @ rodrigues(pre["axis"], -pre["angle"]).T + o
+    elif pre["kind"] == "mirror":
+        # Operation.mirror reflects the points and swaps bottom and top face: corner j of the source becomes
+        # corner (j + 4) % 8 of the image
+        o, n = off + np.asarray(pre["origin"]), np.asarray(pre["axis"])
+        image = target - 2.0 * np.outer((target - o) @ n, n)
+        pts = np.array([image[(j + 4) % 8] for j in range(8)])
+    else:
+        pts = target
+    op = cb.Loft(cb.Face(pts[:4]), cb.Face(pts[4:]))
+    if chop:
+        for ax in range(3):
+            op.chop(ax, count=1)
+    return op
+
+
+def _moved(case, oi: int, op):
+    pre = (case.get("pre") or [{"kind": "none"}] * len(case["orient"]))[oi]
+    off = np.asarray(case.get("offset") or [0.0, 0.0, 0.0])
+    if pre["kind"] not in ("translate", "rotate", "mirror"):
+        return op
+    src = op.copy() if pre.get("copy") else op
+    if pre["kind"] == "translate":
+        return src.translate(pre["d"])
+    if pre["kind"] == "rotate":
+        return src.rotate(pre["angle"], pre["axis"], list(off + np.asarray(pre["origin"])))
+    return src.mirror(pre["axis"], list(off + np.asarray(pre["origin"])))
+
+
+def make_ops(case, chop: bool = False):
+    """The operations of the case, with their patches.  Returns (ops, perms, cpos): perms[oi][i] = canonical corner of
+    the lattice cell under local corner i (drawn numbering; measured for chained blocks), cpos = corner positions."""
+    k = len(case["orient"])
+    pres = case.get("pre") or [{"kind": "none"}] * k
+    perms: List[Any] = [tuple(lt.ROT[rot]) for rot in case["orient"]]
+    cpos = corner_positions(case)
+    own: Dict[int, List[Tuple[int, str]]] = {oi: [] for oi in range(k)}
+    for oi, g, name in case["patches"]:
+        own[oi].append((g, name))
+    ops: List[Any] = [None] * k
+    derived = [oi for oi in range(k) if pres[oi]["kind"] in ("copy-of", "chain")]
+    pos = lt.node_positions(case)
+
+    def declare(oi, stms):
+        # patches are declared before an operation is moved; they belong to the (image of the) face they were put on:
+        # a mirror image carries on its bottom what the source had on its top, the four lateral sides keep their names
+        for g, name in stms:
+            side = xs.side_name_of_perm(perms[oi], g)
+            if pres[oi]["kind"] == "mirror":
+                side = {"top": "bottom", "bottom": "top"}.get(side, side)
+            ops[oi].set_patch(side, name)
+
+    for oi in range(k):
+        if oi in derived:
+            continue
+        target = np.array([cpos[(oi, i)] for i in range(8)])
+        ops[oi] = _placed(case, oi, target, chop)
+        children = sorted((pres[c]["at"], c) for c in derived if pres[c]["src"] == oi)
+        done = 0
+        for at, c in children:
+            declare(oi, own[oi][done:at])
+            done = at
+            if pres[c]["kind"] == "copy-of":
+                ops[c] = ops[oi].copy()
+                tgt = np.array([cpos[(c, i)] for i in range(8)])
+                ops[c].bottom_face.update(tgt[:4])
+                ops[c].top_face.update(tgt[4:])
+            else:
+                ops[c], perms[c] = _chained(case, oi, c, ops[oi], perms[oi], pos, chop)
+                for i in range(8):
+                    cpos[(c, i)] = np.array(ops[c].point_array[i], dtype=float)
+        declare(oi, own[oi][done:])
+        ops[oi] = _moved(case, oi, ops[oi])
+    for c in derived:
+        declare(c, own[c])
+    return ops, perms, cpos
+
+
+def _chained(case, s: int, t: int, src, perm_s, pos, chop: bool):
+    """cb.Extrude(src.get_face(side towards cell t), width): the next block of a chain.  Its corner numbering follows
+    from the face it was started on; it is read off the positions of its corners."""
+    dims = case["dims"]
+    ns, nt = lt.cell_nodes(dims, case["cells"][s]), lt.cell_nodes(dims, case["cells"][t])
+    shared = set(ns) & set(nt)
+    g = [g for g in range(6) if {ns[q] for q in xs.canon_side_corners(g)} == shared][0]
+    near = [q for q in range(8) if nt[q] in shared]
+    across = [q for q in range(8) if sum(a != b for a, b in zip(lt.CANON[q], lt.CANON[near[0]])) == 1 and nt[q] not in shared]
+    vector = pos[nt[across[0]]] - pos[nt[near[0]]]  # from the shared face to the far face of the target cell
+    side = xs.side_name_of_perm(perm_s, g)
+    face = src.get_face(side)
+    if side in ("bottom", "left", "front"):
+        face.invert()  # 'bottom, left and front faces must be inverted prior to using them for a loft/extrude'
+    op = cb.Extrude(face, list(vector))
+    if chop:
+        for ax in range(3):
+            op.chop(ax, count=1)
+    pts = np.array(op.point_array, dtype=float)
+    slack = 0.01 * min(min(w) for w in case["widths"])
+    perm = []
+    for i in range(8):
+        hit = [q for q in range(8) if float(np.max(np.abs(pos[nt[q]] - pts[i]))) < slack]
+        if len(hit) != 1:
+            raise Violation("chained-block-off-target", f"corner {i} of the extruded block at {tuple(pts[i])} is not a corner of "
+                            "the neighbouring lattice cell", **facts_of(case))
+        perm.append(hit[0])
+    if sorted(perm) != list(range(8)):
+        raise Violation("chained-block-off-target", f"extruded block does not cover the neighbouring cell: {perm}", **facts_of(case))
+    return op, tuple(perm)
+
+
 def build(case, order: List[int], chop: bool = False, history: Any = None):
     """history None: everything is declared, nothing assembled yet.  Otherwise the calls are made in the order the
     history says (first assemble() with a prefix of the pairs / operations, the rest afterwards, re-assembly) and the
     mesh is returned assembled; {"kind": "query-first"} only asks patch_list.is_slave() before the pairs are declared."""
-    cpos = corner_positions(case)
-    ops = []
-    pres = case.get("pre") or [{"kind": "none"}] * len(case["orient"])
-    off = np.asarray(case.get("offset") or [0.0, 0.0, 0.0])
-    for oi, rot in enumerate(case["orient"]):
-        target = np.array([cpos[(oi, i)] for i in range(8)])
-        pre = pres[oi]
-        # where the operation is built so that the transformation puts its corner i on target[i]
-        if pre["kind"] == "translate":
-            pts = target - np.asarray(pre["d"])
-        elif pre["kind"] == "rotate":
-            o = off + np.asarray(pre["origin"])
-            pts = (target - o) @ rodrigues(pre["axis"], -pre["angle"]).T + o
-        elif pre["kind"] == "mirror":
-            # Operation.mirror reflects the points and swaps bottom and top face: corner j of the source becomes
-            # corner (j + 4) % 8 of the image
-            o, n = off + np.asarray(pre["origin"]), np.asarray(pre["axis"])
-            image = target - 2.0 * np.outer((target - o) @ n, n)
-            pts = np.array([image[(j + 4) % 8] for j in range(8)])
-        else:
-            pts = target
-        op = cb.Loft(cb.Face(pts[:4]), cb.Face(pts[4:]))
-        if chop:
-            for ax in range(3):
-                op.chop(ax, count=1)
-        # patches are declared before the operation is moved; they belong to the (image of the) face they were put on:
-        # a mirror image carries on its bottom what the source had on its top, the four lateral sides keep their names
-        for pi, g, name in case["patches"]:
-            if pi == oi:
-                side = xs.local_side_name(rot, g)
-                if pre["kind"] == "mirror":
-                    side = {"top": "bottom", "bottom": "top"}.get(side, side)
-                op.set_patch(side, name)
-        if pre["kind"] != "none":
-            src = op.copy() if pre.get("copy") else op
-            if pre["kind"] == "translate":
-                op = src.translate(pre["d"])
-            elif pre["kind"] == "rotate":
-                op = src.rotate(pre["angle"], pre["axis"], list(off + np.asarray(pre["origin"])))
-            else:
-                op = src.mirror(pre["axis"], list(off + np.asarray(pre["origin"])))
-        ops.append(op)
+    ops, perms, cpos = make_ops(case, chop)
     mesh = cb.Mesh()
     kind = (history or {}).get("kind", "none")
     if kind == "query-first":
@@ -352,7 +472,7 @@ def build(case, order: List[int], chop: bool = False, history: Any = None):
         if not case["merge_first"]:
             for m, s in case["pairs"]:
                 mesh.merge_patches(m, s)
-        return mesh, cpos
+        return mesh, cpos, perms
     nb, pb = history["ops_before"], history["pairs_before"]
     for m, s in case["pairs"][:pb]:
         mesh.merge_patches(m, s)
@@ -371,12 +491,12 @@ def build(case, order: List[int], chop: bool = False, history: Any = None):
             mesh.assemble()
     except Exception as ex:
         raise Violation("assemble-failed", f"history {history}: {type(ex).__name__}: {ex}", **facts_of(case)) from None
-    return mesh, cpos
+    return mesh, cpos, perms
 
 
 def assemble_ids(case, order: List[int], history: Any = None):
     """vertex id of every (operation, corner) after the (last) Mesh.assemble() with the given insertion order"""
-    mesh, cpos = build(case, order, history=history)
+    mesh, cpos, perms = build(case, order, history=history)
     try:
         if not mesh.is_assembled:
             mesh.assemble()
@@ -387,7 +507,7 @@ def assemble_ids(case, order: List[int], history: Any = None):
         idx = list(mesh.blocks[bi].indexes)
         for i in range(8):
             vid[(oi, i)] = int(idx[i])
-    return mesh, cpos, vid
+    return mesh, cpos, vid, perms
 
 
 def facts_of(case) -> Dict[str, Any]:
@@ -494,7 +614,14 @@ def label_case(case, ref: Ref, stats, ctx: Ctx) -> None:
     for kind in sorted({p["kind"] for p in pres if p["kind"] != "none"}):
         ctx.label("built-elsewhere:" + kind)
     paired = ref.masters | ref.slaves
+    own = [[(g, n) for pi, g, n in case["patches"] if pi == oi] for oi in range(len(pres))]
     for oi, p in enumerate(pres):
+        if p["kind"] in ("copy-of", "chain"):
+            late = [n for _, n in own[p["src"]][p["at"]:]] + ([n for _, n in own[oi]] if p["kind"] == "copy-of" else [])
+            if any(n in ref.slaves for n in late):
+                ctx.label(p["kind"] + ":slave-patch-declared-after-" + ("copying" if p["kind"] == "copy-of" else "chaining"))
+            if p["kind"] == "chain" and any(n in ref.slaves for _, n in own[p["src"]][: p["at"]]):
+                ctx.label("chain:source-carries-slave-patch")
         if p["kind"] == "mirror":
             sides = {xs.local_side_name(case["orient"][oi], g) for (pi, g), name in ref.final.items() if pi == oi and name in paired}
             if sides & {"left", "right"}:
@@ -523,9 +650,9 @@ def label_history(case, ref: Ref, ctx: Ctx) -> None:
 
 
 def check_assembly(case, ctx: Ctx) -> None:
-    ref = Ref(case)
     order = list(range(len(case["cells"])))
-    mesh, cpos, vid = assemble_ids(case, order)
+    mesh, cpos, vid, perms = assemble_ids(case, order)
+    ref = Ref(case, perms)
     stats = check_partition(case, ref, vid, ctx, "insertion order as listed")
     check_dense(case, mesh, vid, cpos)
     # every insertion order gives the same connectivity (also for the combinations that are not judged above)
@@ -533,7 +660,9 @@ def check_assembly(case, ctx: Ctx) -> None:
     # declared after a first assemble(), then clear()+assemble() or backport()); judged after its last assembly
     order2 = list(case["order2"])
     hist = case.get("history") or {"kind": "none"}
-    mesh2, cpos2, vid2 = assemble_ids(case, order2, hist)
+    mesh2, cpos2, vid2, perms2 = assemble_ids(case, order2, hist)
+    if perms2 != perms:
+        raise Violation("numbering-not-reproducible", "the same construction gave two different corner numberings", **facts_of(case))
     where = f"insertion order {order2}, history {hist}"
     check_partition(case, ref, vid2, ctx, where)
     check_dense(case, mesh2, vid2, cpos2)
@@ -547,9 +676,9 @@ def check_assembly(case, ctx: Ctx) -> None:
 
 
 def check_file(case, ctx: Ctx) -> None:
-    ref = Ref(case)
     order = list(case["order2"])
-    mesh, cpos = build(case, order, chop=True, history=case.get("history"))
+    mesh, cpos, perms = build(case, order, chop=True, history=case.get("history"))
+    ref = Ref(case, perms)
     try:
         text, _ = lt.write_text(mesh)
     except Exception as ex:
